@@ -232,6 +232,63 @@ def run_cli(chk, model):
     chk.cov["cli_runs"] = nruns_total
     chk.cov["traces_validated_against_impl"] = nruns_total - mismatches
 
+def run_same_frontend(chk):
+    """Histories inside ONE BuildSystemFrontend (the command object is reused from build to build): process A records list L0; one frontend over
+    the same database with list L1 then builds several times while files re-appear in between. The 'previous successful run' of the second and
+    later builds on the frontend is the build before it, which listed L1 - so nothing may be removed any more (fixed 529c4cb: the list computed
+    for the first build was cached on the command object and applied again)."""
+    import subprocess
+    drv = vlib.build_drivers(["bsys_driver"])["bsys_driver"]
+    llb = vlib.llbuild_bin()
+    base = os.path.join(vlib.WORK, "tmp", "c14sf")
+    shutil.rmtree(base, ignore_errors=True)
+    rng = chk.rng
+    hxs = lambda x: x.encode().hex()
+    n = chk.n(12, 150)
+    for h in range(n):
+        S = os.path.join(base, "h%d" % h)
+        os.makedirs(S)
+        names = ["a", "b", "c", "d/e", "d/f"]
+        full = [S + "/" + x for x in names]
+        l0 = rng.sample(full, rng.randint(2, 5))
+        l1 = rng.sample(l0, rng.randint(0, len(l0) - 1)) + ([S + "/new"] if rng.random() < 0.3 else [])
+        verbose = rng.random() < 0.5
+        def mk():
+            for f in full:
+                os.makedirs(os.path.dirname(f), exist_ok=True)
+                if not os.path.exists(f):
+                    open(f, "w").write("x")
+        mk()
+        open(S + "/b0.llbuild", "w").write(BUILD_TMPL % (", ".join(yq(x) for x in l0), ""))
+        open(S + "/b1.llbuild", "w").write(BUILD_TMPL % (", ".join(yq(x) for x in l1), ""))
+        vlib.sh([llb, "buildsystem", "build", "--serial", "--chdir", S, "--db", S + "/build.db", "-f", S + "/b0.llbuild"] + (["-v"] if verbose else []), timeout=60)
+        p = subprocess.Popen([drv], stdin=subprocess.PIPE, stdout=subprocess.PIPE, text=True)
+        def ask(l):
+            p.stdin.write(l + "\n"); p.stdin.flush()
+            return p.stdout.readline().strip()
+        try:
+            ask("open %s %s %s 0" % (hxs(S), hxs(S + "/b1.llbuild"), hxs(S + "/build.db")))
+            stale = sorted(set(l0) - set(l1))
+            for b in range(rng.randint(2, 4)):
+                mk()
+                ans = ask("fbuild - 0 - -")
+                gone = sorted(f for f in full if not os.path.exists(f))
+                want = [f for f in full if any(f == d or f.startswith(d + "/") for d in stale)] if b == 0 else []
+                chk.count(("sf", tuple(x[len(S):] for x in stale), b) if (stale and b > 0) else None)
+                if gone != sorted(want):
+                    key = "stale-removed-too-much" if set(gone) - set(want) else "stale-removed-too-little"
+                    chk.violation(key + "-same-frontend", "build %d on one frontend (previous process listed %s, this frontend lists %s): removed %s, the property allows %s" % (
+                        b + 1, [x[len(S):] for x in l0], [x[len(S):] for x in l1], [x[len(S):] for x in gone], [x[len(S):] for x in want]),
+                        dict(first_list=l0, frontend_list=l1, build_on_frontend=b + 1, removed=gone, allowed=want, driver_answer=ans[:300], sandbox=S),
+                        found_input=True, broken="c14 oracle on one BuildSystemFrontend building several times")
+                    break
+            ask("close")
+        finally:
+            p.stdin.close(); p.wait(timeout=20)
+        shutil.rmtree(S, ignore_errors=True)
+    chk.cov["same_frontend_histories"] = n
+
+
 def run(chk):
     drv = vlib.build_drivers(["leaf_driver"])["leaf_driver"]
     model = vlib.model_bin()
@@ -241,6 +298,7 @@ def run(chk):
     # the file-system side: LocalFileSystem::remove / rm_tree against the system-call-level model Path/FsRemove.v (chroot sandbox)
     from props import c14fs
     c14fs.run_fs(chk)
+    run_same_frontend(chk)
     chk.assumptions = ["POSIX path separators only ('/'); the Windows separator set is not modelled",
                        "file system model (Path/FsRemove.v): regular files, directories and symbolic links only; permissions not modelled (the harness runs as root); "
                        "the process working directory is the tree root; readdir order is an input of the model",
